@@ -217,6 +217,10 @@ func (x *Explorer) rn(v ssa.Value) string {
 	return v.Name() + "_h" + itoa(id)
 }
 
+// RegKey is the Assume key that pins the truth of the boolean register v
+// (a value of the explored function or of a helper it walks through).
+func (x *Explorer) RegKey(v ssa.Value) string { return "@" + x.rn(v) }
+
 // addRegs indexes the registers of fn (for dominance pruning).
 func (x *Explorer) addRegs(fn *ssa.Function) {
 	if x.regFns[fn] {
@@ -1128,6 +1132,7 @@ func (x *Explorer) Run() []Hit {
 					inHelper := func(k string) bool { return hasHelperReg(k, hid) }
 					origin := map[string]string{}
 					cvRet := fr.call.Value()
+					pruned := false
 					if cc, isCall := fr.call.(*ssa.Call); isCall {
 						if hf, _ := hofLiteral(cc); hf != nil && (cvRet == nil || !isBoolType(cvRet.Type())) {
 							cvRet = nil // e.g. slices.IndexFunc: the result is an index, not the literal's verdict
@@ -1171,9 +1176,33 @@ func (x *Explorer) Run() []Hit {
 							}
 							return name
 						}
+						// an assumption about the nil-ness of the helper's
+						// result ("this call failed"): paths through the helper
+						// that return otherwise are not the ones asked about
+						contradicts := func(r ssa.Value, name string) bool {
+							want, pinned := st.pin[eqKey(name, "nil")]
+							if !pinned {
+								return false
+							}
+							k := x.key(r, st)
+							switch {
+							case k == "nil":
+								return !want
+							case nonNilKey(k, st):
+								return want
+							}
+							if isNil, known := truthOfKey(eqKey(k, "nil"), st); known {
+								return isNil != want
+							}
+							return false
+						}
 						switch len(i.Results) {
 						case 0:
 						case 1:
+							if contradicts(i.Results[0], x.rn(cv)) {
+								pruned = true
+								break
+							}
 							k := res(i.Results[0], x.rn(cv))
 							if k != x.rn(cv) {
 								ns.alias[x.rn(cv)] = k
@@ -1181,10 +1210,16 @@ func (x *Explorer) Run() []Hit {
 						default:
 							var ks []string
 							for ri, r := range i.Results {
+								if contradicts(r, x.rn(cv)+"#"+itoa(ri)) {
+									pruned = true
+								}
 								ks = append(ks, res(r, x.rn(cv)+"#"+itoa(ri)))
 							}
 							ns.tuple[x.rn(cv)] = ks
 						}
+					}
+					if pruned {
+						break
 					}
 					// what a cell of the caller was assigned inside (a literal applied on
 					// the spot setting a captured `ok`, `err`): keep what this path knows
